@@ -6,9 +6,9 @@
     pony/orm/dbapiprovider.py   wrap_dbapi_exceptions, Pool.connect/_connect/release/drop,
                                 DBAPIProvider.connect/commit/rollback/release/drop/execute
     pony/orm/dbproviders/sqlite.py
-                                SQLitePool._connect/drop (file database),
+                                SQLitePool._connect/drop/disconnect (file database), Database.disconnect,
                                 SQLiteProvider.acquire_lock/release_lock/set_transaction_mode/commit/rollback/drop/release
-    pony/orm/core.py            SessionCache.connect/reconnect/prepare_connection_for_query_execution/flush (the
+    pony/orm/core.py            SessionCache.connect (with Database.call_on_connect)/reconnect/prepare_connection_for_query_execution/flush (the
                                 `immediate` bookkeeping)/flush_and_commit/commit/rollback/release/close,
                                 Database._get_cache/_exec_sql/get_connection, Query._actual_fetch (its two calls),
                                 core.commit/rollback,
@@ -93,6 +93,7 @@ structure Cfg where
                            -- which `SQLitePool._connect` the tree has.  false: `pool.con = con = sqlite.connect(...)` and
                            -- then the initialisation (as released); true: the connection is initialised first, closed
                            -- if that fails, and only then assigned to `pool.con` (fixes/C19-sqlitepool-connect-init.diff)
+  onConnect : Nat := 0     -- number of `@db.on_connect` hooks registered for this provider
 
 /-! ### the exception/state monad -/
 
@@ -318,17 +319,30 @@ def getCache (cf : Cfg) : M Unit := do
     modS (fun s => { s with hasCache := true,
                             cache := { conn := none, inTx := false, immediate := cf.immediate, savedFk := false, pending := [] } })
 
-/-- `SessionCache.connect` (no on_connect hooks registered) -/
-def cacheConnect (cf : Cfg) : M Nat := do
-  let s ← getS
-  assertM (s.cache.conn = none)
-  if s.cache.inTx then raise .connClosed
-  let (con, _isNew) ← baseConnect cf
+/-- `Database.call_on_connect(con)`: for each registered hook `func(database, con); con.commit()` (neither is wrapped;
+    the hook's own statements are the user's business and not modelled) -/
+def callOnConnect (cf : Cfg) (con : Nat) : Nat → M Unit
+  | 0 => pure ()
+  | n + 1 => do
+      conCommit cf con
+      callOnConnect cf con n
+
+/-- the second half of `SessionCache.connect`: start the transaction mode, drop the connection if that fails -/
+def cacheConnectTail (cf : Cfg) (con : Nat) : M Nat := do
   tryCatch (setTransactionMode cf con) (fun e => do
     provDrop cf con
     raise e)
   modC (fun c => { c with conn := some con })
   pure con
+
+/-- `SessionCache.connect` -/
+def cacheConnect (cf : Cfg) : M Nat := do
+  let s ← getS
+  assertM (s.cache.conn = none)
+  if s.cache.inTx then raise .connClosed
+  let (con, isNew) ← baseConnect cf
+  if isNew then callOnConnect cf con cf.onConnect       -- if is_new_connection: database.call_on_connect(connection)
+  cacheConnectTail cf con
 
 /-- `SessionCache.reconnect(exc)` with `exc is not None`; `e` is the active exception -/
 def cacheReconnect (cf : Cfg) (e : Exc) : M Nat := do
@@ -521,6 +535,36 @@ def runSessions : List (Cfg × List (Op × Bool) × Bool) → St → List (Excep
   | (cf, prog, br) :: rest, s =>
       match dbSession cf prog br s with
       | (r, s') => match runSessions rest s' with
+        | (rs, s'') => (r :: rs, s'')
+
+/-- `Pool.disconnect` (through `SQLitePool.disconnect` for a file database) -/
+def poolDisconnect (cf : Cfg) : M Unit := do
+  let s ← getS
+  modS (fun s => { s with poolCon := none, dirty := false })     -- con = pool.con; pool.con = None
+  match s.poolCon with
+  | some con => conClose cf con                                  -- if con is not None: con.close()
+  | none => pure ()
+
+/-- `Database.disconnect()` outside a db_session: roll back a cache left over from interactive use, close the pooled connection -/
+def dbDisconnect (cf : Cfg) : M Unit := do
+  let s ← getS
+  if s.hasCache then cacheClose cf true      -- cache.rollback()
+  wrap (poolDisconnect cf)                   -- provider.disconnect()
+
+/-- what a thread does between and around sessions -/
+inductive Step
+  | session (cf : Cfg) (prog : List (Op × Bool)) (bodyRaises : Bool)
+  | disconnect (cf : Cfg)
+
+def runStep : Step → St → Except Exc Unit × St
+  | .session cf prog br, s => dbSession cf prog br s
+  | .disconnect cf, s => dbDisconnect cf s
+
+def runSteps : List Step → St → List (Except Exc Unit) × St
+  | [], s => ([], s)
+  | st :: rest, s =>
+      match runStep st s with
+      | (r, s') => match runSteps rest s' with
         | (rs, s'') => (r :: rs, s'')
 
 /-! ### what other threads see: the lock events of a session -/
